@@ -440,6 +440,18 @@ func LAccesses(p *Prog, fns []*ssa.Function) []LAccess {
 							}
 						}
 					}
+					if cc.IsInvoke() {
+						// a method of the object behind an interface value that lives in a package-level variable of the module: the
+						// object is shared by every caller and keeps whatever state its methods keep (a hash, a buffer, a cache)
+						if u, ok := cc.Value.(*ssa.UnOp); ok && u.Op == token.MUL {
+							if g, ok := u.X.(*ssa.Global); ok && InModulePkg(g.Pkg) && !statelessIfaceMethod(cc) {
+								loc := "global:" + shortPkg(g.Pkg.Pkg.Path()) + "." + g.Name()
+								add(in, loc, true, "call of "+cc.Method.Name()+" on the shared object behind the interface variable (it keeps state between calls)", "")
+								add(in, loc, false, "call of "+cc.Method.Name()+" on the shared object behind the interface variable (it hands back state kept from other calls)", "")
+							}
+						}
+						continue
+					}
 					sc := cc.StaticCallee()
 					if sc == nil || len(cc.Args) == 0 {
 						continue
@@ -466,6 +478,10 @@ func LAccesses(p *Prog, fns []*ssa.Function) []LAccess {
 					name := FuncName(sc)
 					if sy := syncMutator(name); sy != "" {
 						add(in, loc, true, "call "+name, sy)
+						// read-modify-write methods hand back what another call stored
+						if mn := sc.Name(); strings.HasPrefix(mn, "Load") || strings.Contains(mn, "Swap") || strings.HasPrefix(mn, "Add") || strings.HasPrefix(mn, "CompareAnd") {
+							add(in, loc, false, "call "+name+" (hands back the stored value)", sy)
+						}
 					} else if sy := syncReader(name); sy != "" {
 						add(in, loc, false, "call "+name, sy)
 					} else if InModule(sc) && mutatesReceiver(resolveBound(sc), 0) {
@@ -779,4 +795,24 @@ func contextFreeForeignCalls(p *Prog, fns []*ssa.Function) (bad, allowed []forei
 		}
 	}
 	return
+}
+
+// statelessIfaceMethod: interface methods that by their contract only read the object (error values, codecs, loggers' level
+// tests, Stringers) — calling them on a shared object is not a use of shared mutable state.
+func statelessIfaceMethod(cc *ssa.CallCommon) bool {
+	if cc.Method == nil {
+		return true
+	}
+	recv := cc.Value.Type().String()
+	switch cc.Method.Name() {
+	case "Error", "String", "Is", "As", "Unwrap", "ABCICode", "Codespace", "Wrap", "Wrapf":
+		return true
+	}
+	// codecs, interface registries, loggers: stateless or internally synchronised by contract
+	for _, s := range []string{"/codec.", "/codec/types.", "log.Logger", "codec.Codec", "BinaryCodec", "JSONCodec", "InterfaceRegistry"} {
+		if strings.Contains(recv, s) {
+			return true
+		}
+	}
+	return false
 }
